@@ -221,6 +221,9 @@ func (c *Conn) readMessage() (*Message, error) {
 	if p2pMessage.Type == p2p.Message_PIECE_PAYLOAD {
 		// For payload messages, we must read the actual payload to the connection
 		// after reading the message.
+		if p2pMessage.PiecePayload == nil {
+			return nil, errors.New("piece payload message has no body")
+		}
 		payload, err := c.readPayload(p2pMessage.PiecePayload.Length)
 		if err != nil {
 			return nil, fmt.Errorf("read payload: %s", err)
